@@ -368,6 +368,10 @@ func LogSpan(dst []float64, l, u float64) []float64 {
 	for i := range dst {
 		dst[i] = math.Exp(dst[i])
 	}
+	if l > 0 && u > 0 {
+		// Make sure the end points are exactly l and u despite rounding.
+		dst[0], dst[len(dst)-1] = l, u
+	}
 	return dst
 }
 
